@@ -60,6 +60,10 @@ theorem decode_step_src (t : Table) (pre b post : Bytes) (fuel : Nat)
   · have h8' : 8 ≤ b.length := by omega
     by_cases h0 : byteAt b 0 = 0
     · obtain ⟨hsrc, hmap⟩ := SrcTec.decode_tecmp_src (tblSt t) pre b post fuel toPacket hpre h8' h0 (by omega) hf
+        (fun _ => by
+          have := C03.beAt_lt b 32 2
+          have hbl : b.length ≤ (pre ++ b ++ post).length := by simp only [List.length_append]; omega
+          omega)
       rw [decodeLL_tecmp t b h8' h0]
       exact ⟨_, hsrc, hmap⟩
     · obtain ⟨outs, h1, h2⟩ := decode_src t pre b post fuel (SrcTec.tecmpExt fuel) hT hR hpre h8' h0 hmem hf
